@@ -1,6 +1,7 @@
 // vextract — tie A: regenerates Lean *data* files from the broker's source (DESIGN.md §2.3).
 //
-//	vextract -repo /repo -out lean/Mochi/Gen     writes Gen/LockGraph.lean and Gen/RootLock.lean
+//	vextract -repo /repo -out lean/Mochi/Gen     writes Gen/LockGraph.lean, Gen/RootLock.lean, Gen/PropTable.lean,
+//	                                             Gen/Codes.lean (tables.go) and Gen/Programs.lean (order.go)
 //	vextract -repo /repo -report [-json]         prints the re-entrant / unordered acquisitions it finds
 //
 // The production build is analysed (no build tag: `//go:build verif` files are excluded, `!verif`
@@ -85,8 +86,10 @@ func main() {
 		os.Exit(2)
 	}
 	changed := 0
-	for name, content := range map[string]string{"LockGraph.lean": g.lean(), "RootLock.lean": x.rootLockLean()} {
-		if writeIfChanged(filepath.Join(*out, name), content) {
+	files := map[string]string{"LockGraph.lean": g.lean(), "RootLock.lean": x.rootLockLean(),
+		"PropTable.lean": x.propTableLean(), "Codes.lean": x.codesLean(), "Programs.lean": x.programsLean()}
+	for _, name := range []string{"LockGraph.lean", "RootLock.lean", "PropTable.lean", "Codes.lean", "Programs.lean"} {
+		if writeIfChanged(filepath.Join(*out, name), files[name]) {
 			changed++
 		}
 	}
